@@ -54,6 +54,9 @@ def strategy(tier):
         "nodes": st.lists(node, min_size=2, max_size=14 if big else 10),
         "seeds": st.lists(ref, min_size=1, max_size=4),
         "nest": nest,
+        # common magnitude of all seeds: the total derivative is linear in the seeds, so tiny or huge adjoints must
+        # propagate exactly like O(1) ones (compared relative to the expected magnitude)
+        "seed_scale": st.sampled_from([1.0, 1.0, 1.0, 1e-9, 1e-12, 1e7]),
         "payload_seed": SEED,
     })
 
@@ -435,7 +438,7 @@ def check_case(case):
     for r in case["seeds"]:
         i = r % len(sigs)
         if i not in seeded:
-            seeded[i] = rng.uniform(-1, 1, sigs[i].val.size)
+            seeded[i] = rng.uniform(-1, 1, sigs[i].val.size) * case.get("seed_scale", 1.0)
     # seeding sources themselves is possible as well (their own sensitivity is then part of the expected total)
     top.reset()
     for i, w in seeded.items():
@@ -455,7 +458,9 @@ def check_case(case):
         labels.append("multi_seed")
     if len(seeded) < len(sigs):
         labels.append("unseeded_branches")
-    scale = max(1.0, float(np.max(np.abs(expected))))
+    scale = max(float(case.get("seed_scale", 1.0)), float(np.max(np.abs(expected))))
+    if case.get("seed_scale", 1.0) != 1.0:
+        labels.append("scaled_seeds")
     for (s, o, n, shp) in sources:
         g = s.sensitivity
         exp = expected[o:o + n].reshape(shp)
@@ -484,7 +489,7 @@ def check_case(case):
         for (s, o, n, shp), b0 in zip(sources, base):
             s.state = b0
         a = float(expected @ vdir)
-        if abs(a - d) > 1e-6 * max(abs(a), abs(d), 1.0) + 50 * err and err < 1e-5:
+        if abs(a - d) > 1e-6 * max(abs(a), abs(d), case.get("seed_scale", 1.0)) + 50 * err and err < 1e-5 * case.get("seed_scale", 1.0):
             raise AssertionError(f"C02 oracle self-check failed: forward-mode {a} vs differences {d} (err {err}) "
                                  f"case={case}")
     return labels, V
